@@ -84,3 +84,27 @@ Definition check_whole (F : list Z) (tbl : list (list Z * list Z)) (fixed : list
       Z.lor (Z.lor (if list_eqb (fst t) fixed then 0 else 2) (series_flags F (concat blocks) es)) (mindex_flags mis blocks)
   | None => 1
   end.
+
+(* stored statistics of a boolean column against the boolean builder model (start values 2 / -1, strict int8 comparisons,
+   times by row) as the real reader reports them (min() / max() read "byte = 1"); 1 = differs *)
+Definition check_stats_bool (self : bool) (segs : list (list srow)) (stored : stat) : Z :=
+  let s := bool_build true segs in
+  if stat_eqb (mkStat (bool_of_byte (s_min s)) (bool_of_byte (s_max s)) (s_minT s) (s_maxT s) 0 (s_cnt s)) stored then 0 else 15.
+
+(* STREAMING compaction: the stored block of a column = the first source chunk's block with every further source chunk's
+   block merged into it, each source block as its own file stores it (a single-row block keeps only (min, minTime): a
+   single NaN leaves the start value there, which then takes part in the merge). Integers: today's float64-routed merge or
+   the exact one. 15 = explained by neither / differs. *)
+Definition fold_chunks (merge : stat -> stat -> stat) (blocks : list stat) (dflt : stat) : stat :=
+  match blocks with [] => dflt | s :: r => fold_left merge r s end.
+Definition check_stats_int_stream (self : bool) (chunks : list (list (list srow))) (stored : stat) : Z :=
+  let blocks := map (fun segs => one_row_view (int_build true segs)) chunks in
+  let ok (conv : Z -> Z) := stat_eqb (one_row_view (fold_chunks (int_merge conv) blocks (int_build true []))) stored in
+  if ok via_f64 || ok (fun v => v) then 0 else 15.
+Definition check_stats_float_stream (self : bool) (chunks : list (list (list srow))) (stored : stat) : Z :=
+  let add := fun _ _ : Z => 0 in
+  let blocks := map (fun segs => one_row_view (fl_build add true segs)) chunks in
+  if stat_eqb (no_sum (one_row_view (fold_chunks (fl_merge add) blocks (fl_build add true [])))) (no_sum stored) then 0 else 15.
+Definition check_stats_bool_stream (self : bool) (chunks : list (list (list srow))) (stored : stat) : Z :=
+  let s := fold_chunks bool_merge (map (bool_build true) chunks) (bool_build true []) in
+  if stat_eqb (mkStat (bool_of_byte (s_min s)) (bool_of_byte (s_max s)) (s_minT s) (s_maxT s) 0 (s_cnt s)) stored then 0 else 15.
